@@ -371,6 +371,12 @@ def part_c(chk, plain, quick):
         for bad in ("%d.0.0" % (have[0] + 1), "nonsense"):
             cases.append({"kind": "attribute-is-not-gated", "requires": [{name: good}], "extra": {name: {"version": bad}},
                           "events": [mc], "expect_ok": True})
+    # the number of streams that require a model does not matter: 255, 256, 257, 512 of them
+    for name in ("mpi", "nosv"):
+        mc, have = vers[name]
+        for nreq in ((255, 256, 257) if quick else (255, 256, 257, 511, 512, 513)):
+            cases.append({"kind": "many-requiring-streams", "requires": [{name: "%d.%d.%d" % have}] * nreq, "events": [mc],
+                          "expect_ok": True, "expect_enabled": {mc, "O"}})
     # forcing all models on (-a) must not switch version gating off
     for c in list(cases):
         if c["kind"] in ("version", "malformed", "mixed-requirements"):
